@@ -101,6 +101,7 @@ class FakeProcess:
         return self.sched.parent_call("exitcode", self)
 
     def join(self, timeout=None):
+        self.join_timeout = timeout
         return self.sched.parent_call("join", self)
 
     def close(self):
@@ -154,6 +155,7 @@ class Sched:
         self.trace = []  # recorded events
         self.end = None  # ("finished"|"aborted"|"crashed", detail)
         self.faults = 0
+        self.natural = 0      # workers whose target raised by itself (no fault was injected into them)
         self.early = 0        # faults that hit a worker IN its batch (its sentinel had not yet reached the pipe)
         self.last_early = 0
         self.written = []
@@ -464,6 +466,7 @@ class Sched:
                 p.early = True
             p.state = "failing"
             self.faults += 1
+            self.natural += 1
             self.trace.append({"t": "natural_failure", "w": p.w, "exc": str(p.pending[1])[:80]})
 
     def applicable(self, t, w):
@@ -728,6 +731,21 @@ def run_schedule(argv, cap, C, labels, max_idle_calls=400):
                     idx += 1
                 continue
             s.starting = False
+            if k == "join" and getattr(obj, "join_timeout", None) is not None and getattr(obj, "timed_joins", 0) == 0:
+                # join(timeout): the first such call on a worker returns at once, before the world has moved - if the worker
+                # has not exited yet it is still alive afterwards (its exit may take longer than any timeout)
+                obj.timed_joins = 1
+                # ... and so it is for the liveness / exit-code scan that follows directly: the world stands still for the
+                # next 2 x (number of workers) non-waiting calls, then moves on (a polling loop converges)
+                s.freeze = 2 * max(1, len(s.procs))
+                s.reply(None)
+                continue
+            if getattr(s, "freeze", 0) > 0 and k in ("exitcode", "is_alive"):
+                s.freeze -= 1
+                s.last_kind = k
+                s.reply(s.alive(obj) if k == "is_alive" else obj.code)
+                continue
+            s.freeze = 0
             continuation = k == s.last_kind and k != "get"      # 2nd is_alive / exitcode / join / write of one scan
             if not continuation:
                 env_from_schedule()                             # what the behaviour does before its next parent action
@@ -757,6 +775,13 @@ def run_schedule(argv, cap, C, labels, max_idle_calls=400):
             elif k == "exitcode":
                 s.reply(obj.code)
             elif k == "join":
+                if getattr(obj, "join_timeout", None) is not None:
+                    # later join(timeout) calls let the world move on one round, so that a loop around them converges
+                    if s.alive(obj):
+                        progress()
+                    obj.timed_joins = getattr(obj, "timed_joins", 0) + 1
+                    s.reply(None)
+                    continue
                 while s.alive(obj):
                     if not progress():
                         hang = f"join() on worker {obj.w} which can never exit (pipe full or unsent item)"
@@ -781,8 +806,8 @@ def run_schedule(argv, cap, C, labels, max_idle_calls=400):
                 hang = f"{idle} parent calls without any change after the schedule was used up"
                 break
         end = s.end if s.end else ("hang", hang or "")
-        return {"end": end[0], "end_detail": end[1], "written": list(s.written), "faults": s.faults, "early": s.early, "diverged": diverged or ""}
+        return {"end": end[0], "end_detail": end[1], "written": list(s.written), "faults": s.faults, "early": s.early, "natural": s.natural, "diverged": diverged or ""}
     except Divergence as d:
-        return {"end": "stuck", "end_detail": d.clause + ":" + str(d.detail)[:120], "written": list(s.written), "faults": s.faults, "early": s.early, "diverged": diverged or ""}
+        return {"end": "stuck", "end_detail": d.clause + ":" + str(d.detail)[:120], "written": list(s.written), "faults": s.faults, "early": s.early, "natural": s.natural, "diverged": diverged or ""}
     finally:
         s.finish()
